@@ -185,7 +185,8 @@ class Gen2:
 
     def body(self, ui, rs, st, nfields):
         """rs: per-field bytes or None. Mirrors InternalWriteTL2: mask byte before field i when (i+1)%8==0, truncated to last used byte."""
-        blocks = [[1 if ui else 0, varlen(ui) if ui else b""]]
+        # the variant index is size-encoded too: its huge form is an admissible non-minimal encoding
+        blocks = [[1 if ui else 0, self.size(ui, st) if ui else b""]]
         for i, r in enumerate(rs):
             if (i + 1) % 8 == 0:
                 blocks.append([0, b""])
